@@ -48,6 +48,20 @@ class MergeInterp(SetInterp):
             return False
         return a == b
 
+    def getattr(self, o, name: str, n: ast.AST):
+        # cached properties (cached_getter / cached_property) keep their first answer in the instance: a shallow copy
+        # of the instance takes the answers along
+        if isinstance(o, Obj) and o.cls is not None and name not in o.attrs:
+            f = self.m.method(o.cls, name)
+            if f is not None and f.is_property and f.is_cached and not f.is_abstract:
+                key = f"_cached_{name}"
+                if key in o.attrs:
+                    return o.attrs[key]
+                v = super().getattr(o, name, n)
+                o.attrs[key] = v
+                return v
+        return super().getattr(o, name, n)
+
     def compare(self, op, a, b, n) -> bool:
         if isinstance(op, ast.Eq):
             return self.obj_eq(a, b)
@@ -152,6 +166,19 @@ class MergeInterp(SetInterp):
             if isinstance(o, Obj) and isinstance(name, str):
                 o.attrs[name] = v
                 return None
+        if isinstance(f, ast.Attribute) and src(f) in ("copy.copy", "copy.deepcopy") and len(n.args) == 1 and "copy" not in env:
+            o = self.eval(n.args[0], env)
+            if isinstance(o, Obj):
+                return Obj(o.cls, **dict(o.attrs))  # a shallow copy: same field values, a new object
+            if isinstance(o, (list, set, dict)):
+                return type(o)(o)
+            return o
+        if isinstance(f, ast.Attribute) and src(f) == "dataclasses.replace" and n.args and "dataclasses" not in env:
+            o = self.eval(n.args[0], env)
+            if isinstance(o, Obj) and o.cls is not None and o.cls.is_dataclass and len(n.args) == 1:
+                attrs = {fl.name: o.attrs[fl.name] for fl in self.m.dataclass_fields(o.cls) if fl.name in o.attrs}
+                attrs.update({k.arg: self.eval(k.value, env) for k in n.keywords if k.arg})
+                return self.construct(o.cls, [], attrs)
         if isinstance(f, ast.Name) and f.id in ("getattr", "hasattr") and 2 <= len(n.args) <= 3 and f.id not in env:
             o = self.eval(n.args[0], env)
             name = self.eval(n.args[1], env)
@@ -168,7 +195,7 @@ class MergeInterp(SetInterp):
             cls = self.m.resolve_class(self.module, f.id)
             if cls is not None and cls.is_dataclass:
                 return self.construct(cls, self._args(n, env), {k.arg: self.eval(k.value, env) for k in n.keywords if k.arg})
-        if isinstance(f, ast.Attribute):
+        if isinstance(f, ast.Attribute) and not (isinstance(f.value, ast.Name) and f.value.id in ("set", "frozenset", "dict", "list", "tuple", "str", "int") and f.value.id not in env):
             o = self.eval(f.value, env)
             if isinstance(o, ClassInfo):
                 meth = self.m.method(o, f.attr)
